@@ -288,9 +288,9 @@ fn main() {
     );
     let dest = PathBuf::from(std::env::var("OUT_DIR").unwrap()).join("api_gen.rs");
     fs::write(dest, out).unwrap();
-<<<<<<< HEAD
     data_api(&dep);
     command_api(&dep);
+    wal_scan(&dep);
 }
 
 /// `pub fn` / `pub(crate) fn` names of the FIRST inherent `impl <Type> {` block of every data-structure
@@ -433,8 +433,7 @@ fn command_api(dep: &str) {
         list(&fns)
     );
     let dest = PathBuf::from(std::env::var("OUT_DIR").unwrap()).join("command_api_gen.rs");
-=======
-    wal_scan(&dep);
+    fs::write(dest, out).unwrap();
 }
 
 /// C09 / C10 / C14: entry points, enum variants, config fields and PRIVATE constants of the WAL /
@@ -574,6 +573,5 @@ fn wal_scan(dep: &str) {
     out.push_str(&format!("pub const SRC_CHECKPOINT_VERSION: usize = {};\n", konst(&chk, "CHECKPOINT_VERSION")));
     out.push_str(&format!("pub const SRC_CHECKPOINT_MAGIC: &str = {};\n", konst(&chk, "CHECKPOINT_MAGIC")));
     let dest = PathBuf::from(std::env::var("OUT_DIR").unwrap()).join("wal_gen.rs");
->>>>>>> build-wal
     fs::write(dest, out).unwrap();
 }
